@@ -2,9 +2,12 @@ package c09
 
 import (
 	"fmt"
+	"strings"
 
 	"github.com/tuneinsight/lattigo/v6/core/rgsw"
 	"github.com/tuneinsight/lattigo/v6/core/rlwe"
+	"github.com/tuneinsight/lattigo/v6/ring"
+	"github.com/tuneinsight/lattigo/v6/ring/ringqp"
 
 	"verif/harness/eng"
 )
@@ -62,6 +65,20 @@ func runRGSW(c *eng.Ctx, cfg pcfg) {
 			fillResidues(rq, ct, r)
 			return ct
 		},
+		derived: []derivedEval[*rgsw.Evaluator]{
+			{name: "shallowcopy", mk: func(po *poisoner) *rgsw.Evaluator {
+				parent := rgsw.NewEvaluator(p, nil)
+				po.rlweEval(&parent.Evaluator)
+				child := parent.ShallowCopy()
+				po.rlweEval(&parent.Evaluator)
+				return child
+			}},
+			{name: "withkey", mk: func(po *poisoner) *rgsw.Evaluator {
+				parent := rgsw.NewEvaluator(p, nil)
+				po.rlweEval(&parent.Evaluator)
+				return parent.WithKey(rlwe.NewMemEvaluationKeySet(nil))
+			}},
+		},
 	}
 	row := urow[*rgsw.Evaluator]{api: "rgsw.Evaluator.ExternalProduct", outDeg: same1, call: func(ev *rgsw.Evaluator, in, out *rlwe.Ciphertext) error {
 		if out.Degree() != 1 || out.Level() != in.Level() {
@@ -74,4 +91,179 @@ func runRGSW(c *eng.Ctx, cfg pcfg) {
 	a := e.ct(L, 1)
 	a.IsNTT = true
 	runUnary(t, s, row, "", "top", a, []named{{"rgsw", g}})
+	// an RGSW ciphertext (and operand) one level lower, resp. with one auxiliary prime less
+	for _, v := range []struct {
+		name    string
+		lq, lp  int
+		applies bool
+	}{{"lvl-1", L - 1, LP, L >= 1}, {"lvlP-1", L, LP - 1, LP >= 1}} {
+		if !v.applies {
+			continue
+		}
+		reseed("rgsw-ct" + v.name)
+		g2 := rgsw.NewCiphertext(p, v.lq, v.lp, cfg.Pow2)
+		pt2 := rlwe.NewPlaintext(p, v.lq)
+		copyRows(pt2.Value, randPoly(rq.AtLevel(v.lq), rnd))
+		pt2.IsNTT = true
+		if err := rgsw.NewEncryptor(p, e.sk).Encrypt(pt2, g2); err != nil {
+			t.c.Count("rows_not_applicable", 1)
+			continue
+		}
+		row2 := row
+		row2.call = func(ev *rgsw.Evaluator, in, out *rlwe.Ciphertext) error {
+			if out.Degree() != 1 || out.Level() != in.Level() {
+				return fmt.Errorf("harness: ExternalProduct needs an output of the shape of the input")
+			}
+			*out.MetaData = *in.MetaData
+			ev.ExternalProduct(in, g2, out)
+			return nil
+		}
+		s2 := *s
+		lq := v.lq
+		s2.dirty = func(r *eng.Rand, deg int) *rlwe.Ciphertext {
+			if deg != 1 {
+				return rlwe.NewCiphertext(p, 0, lq)
+			}
+			ct := rlwe.NewCiphertext(p, 1, lq)
+			fillResidues(rq, ct, r)
+			return ct
+		}
+		a2 := e.ct(v.lq, 1)
+		a2.IsNTT = true
+		runUnary(t, &s2, row2, "", v.name, a2, []named{{"rgsw", g2}})
+	}
+	runRGSWFree(t, e, cfg)
+}
+
+// rgswString: canonical residues of every polynomial of an RGSW ciphertext.
+func rgswString(rqp *ringqp.Ring, ct *rgsw.Ciphertext) string {
+	var sb strings.Builder
+	for k := range ct.Value {
+		for i := range ct.Value[k].Value {
+			for j := range ct.Value[k].Value[i] {
+				for u := range ct.Value[k].Value[i][j] {
+					c := canonPolyQP(rqp, ct.Value[k].Value[i][j][u])
+					fmt.Fprintf(&sb, "%d.%d.%d.%d=%x/%d/%d;", k, i, j, u, c.Comp, c.Level, c.LevelP)
+				}
+			}
+		}
+	}
+	return sb.String()
+}
+
+// runRGSWFree: the exported functions of core/rgsw/evaluator.go that combine RGSW ciphertexts
+// (AddLazy, Reduce, MulByXPowAlphaMinusOneLazy, MulByXPowAlphaMinusOneThenAddLazy): the operand is
+// intact, and the output aliased with the operand gives the value of the run with distinct objects.
+func runRGSWFree(t *T, e *rlweEnv, cfg pcfg) {
+	p := e.p
+	rnd := t.c.Rand()
+	L, LP := p.MaxLevel(), p.MaxLevelP()
+	rqp := p.RingQP().AtLevel(L, LP)
+	mk := func() *rgsw.Ciphertext {
+		// (uniform residues: these functions are plain ring arithmetic on the components)
+		ct := rgsw.NewCiphertext(p, L, LP, cfg.Pow2)
+		s := rnd.U64() | 1
+		fill := func(pol ring.Poly, r *ring.Ring) {
+			for i := range pol.Coeffs {
+				q := r.SubRings[i].Modulus
+				for j := range pol.Coeffs[i] {
+					s ^= s << 13
+					s ^= s >> 7
+					s ^= s << 17
+					pol.Coeffs[i][j] = s % q
+				}
+			}
+		}
+		for k := range ct.Value {
+			for i := range ct.Value[k].Value {
+				for j := range ct.Value[k].Value[i] {
+					for u := range ct.Value[k].Value[i][j] {
+						fill(ct.Value[k].Value[i][j][u].Q, rqp.RingQ)
+						if rqp.RingP != nil {
+							fill(ct.Value[k].Value[i][j][u].P, rqp.RingP)
+						}
+					}
+				}
+			}
+		}
+		return ct
+	}
+	cp := func(ct *rgsw.Ciphertext) *rgsw.Ciphertext {
+		o := &rgsw.Ciphertext{}
+		for k := range ct.Value {
+			o.Value[k] = *ct.Value[k].CopyNew()
+		}
+		return o
+	}
+	A, B := mk(), mk()
+	pw := rqp.NewPoly()
+	{
+		po := newPoisoner(rnd, 1)
+		po.polyQP(pw)
+		for i := range pw.Q.Coeffs {
+			for j := range pw.Q.Coeffs[i] {
+				pw.Q.Coeffs[i][j] %= rqp.RingQ.SubRings[i].Modulus
+			}
+		}
+		for i := range pw.P.Coeffs {
+			for j := range pw.P.Coeffs[i] {
+				pw.P.Coeffs[i][j] %= rqp.RingP.SubRings[i].Modulus
+			}
+		}
+	}
+	type row struct {
+		name  string
+		accum bool
+		call  func(in *rgsw.Ciphertext, pw ringqp.Poly, out *rgsw.Ciphertext)
+	}
+	rows := []row{
+		{"rgsw.AddLazy", true, func(in *rgsw.Ciphertext, pw ringqp.Poly, out *rgsw.Ciphertext) { rgsw.AddLazy(in, rqp, out) }},
+		{"rgsw.Reduce", false, func(in *rgsw.Ciphertext, pw ringqp.Poly, out *rgsw.Ciphertext) { rgsw.Reduce(in, rqp, out) }},
+		{"rgsw.MulByXPowAlphaMinusOneLazy", false, func(in *rgsw.Ciphertext, pw ringqp.Poly, out *rgsw.Ciphertext) {
+			rgsw.MulByXPowAlphaMinusOneLazy(in, pw, rqp, out)
+		}},
+		{"rgsw.MulByXPowAlphaMinusOneThenAddLazy", true, func(in *rgsw.Ciphertext, pw ringqp.Poly, out *rgsw.Ciphertext) {
+			rgsw.MulByXPowAlphaMinusOneThenAddLazy(in, pw, rqp, out)
+		}},
+	}
+	for _, r := range rows {
+		r := r
+		pats := []string{"out=in"}
+		if !r.accum {
+			pats = append(pats, "hist-out")
+		}
+		// the reference of out=in for an accumulating function: the accumulator is a distinct copy of the operand
+		t.runPatterns(r.name, "-", "", pats[1:], func(pat string) ([]named, func() (string, error)) {
+			in, w, out := cp(A), *pw.CopyNew(), cp(B)
+			if !r.accum {
+				out = rgsw.NewCiphertext(p, L, LP, cfg.Pow2)
+				if pat == "hist-out" {
+					out = mk()
+				}
+			}
+			return []named{{"ctIn", in}, {"powXMinusOne", &w}}, func() (string, error) { r.call(in, w, out); return rgswString(&rqp, out), nil }
+		})
+		t.runPatterns(r.name, "alias", "", []string{"out=in"}, func(pat string) ([]named, func() (string, error)) {
+			in, w := cp(A), *pw.CopyNew()
+			out := cp(A)
+			if !r.accum {
+				out = rgsw.NewCiphertext(p, L, LP, cfg.Pow2)
+			}
+			if pat == "out=in" {
+				out = in
+			}
+			return []named{{"powXMinusOne", &w}}, func() (string, error) { r.call(in, w, out); return rgswString(&rqp, out), nil }
+		})
+	}
+	// AddLazy with an RGSW plaintext operand
+	if pt, err := rgsw.NewPlaintext(p, uint64(3), L, LP, cfg.Pow2); err == nil {
+		t.runPatterns("rgsw.AddLazy", "plaintext", "pt", nil, func(pat string) ([]named, func() (string, error)) {
+			x := &rgsw.Plaintext{}
+			for i := range pt.Value {
+				x.Value = append(x.Value, *pt.Value[i].CopyNew())
+			}
+			out := cp(B)
+			return []named{{"op", x}}, func() (string, error) { rgsw.AddLazy(x, rqp, out); return rgswString(&rqp, out), nil }
+		})
+	}
 }
